@@ -94,7 +94,7 @@ pub fn build_headers(serial: u64, hdr: u8) -> Option<HashMap<HeaderKey, HeaderVa
             key.push((b'a' + ((key.len() as u64 + serial) % 26) as u8) as char);
         }
         let key = HeaderKey::new(&key).expect("header key");
-        let f = fill(serial ^ (i as u64) << 40, 16);
+        let f = fill((serial ^ 0x5A5A_0000_0000_0000).wrapping_mul(0x1000_0000_01B3) ^ ((i as u64 + 1) << 40), 16);
         let val = match sel {
             0 => HeaderValue::from_raw(&f[..(1 + (f[0] as usize % 15))]).unwrap(),
             1 => HeaderValue::from_kind_and_value_str(iggy::models::header::HeaderKind::String, &format!("v{}", serial)).unwrap(),
@@ -111,7 +111,7 @@ pub fn build_headers(serial: u64, hdr: u8) -> Option<HashMap<HeaderKey, HeaderVa
             12 => HeaderValue::from_uint128(u128::from_le_bytes(f[0..16].try_into().unwrap())).unwrap(),
             13 => HeaderValue::from_float32(f[0] as f32 * 0.5).unwrap(),
             14 => HeaderValue::from_float64(f[1] as f64 * 0.25).unwrap(),
-            _ => HeaderValue::from_raw(&fill(serial, 200)).unwrap(),
+            _ => HeaderValue::from_raw(&fill(serial ^ 0x3C3C_0000_0000_0001, 200)).unwrap(),
         };
         m.insert(key, val);
     }
